@@ -1,16 +1,21 @@
 ------------------------------- MODULE CmacAny -------------------------------
 (* SP 800-38B transcribed for any block cipher with a 64-bit or 128-bit block: subkey generation (R64 = 0x1B, R128 = 0x87),
    the CBC-MAC with the masked last block, truncation to Tlen bytes (MSB).  The ciphers are those of the data layer:
-   "aes" (AES.tla), "des" / "des3" with 16- or 24-byte keys (DES.tla), "arc2" with par = effective key bits (RC2.tla). *)
+   "aes" (AES.tla), "des" / "des3" with 16- or 24-byte keys (DES.tla), "arc2" with par = effective key bits (RC2.tla), "blowfish" (Blowfish.tla), "cast" (CAST.tla; the two primitives are pinned by their own published vectors). *)
 EXTENDS Bytes
 A == INSTANCE AES
 DS == INSTANCE DES
 R2 == INSTANCE RC2
+BF == INSTANCE Blowfish
+CA == INSTANCE CAST
 Ctx(alg, key, par) == CASE alg = "aes" -> [alg |-> alg, bs |-> 16, k |-> A!AesCtx(key)]
                         [] alg = "des" -> [alg |-> alg, bs |-> 8, k |-> DS!DesCtx(key)]
                         [] alg = "des3" -> [alg |-> alg, bs |-> 8, k |-> DS!Des3Ctx(key)]
                         [] alg = "arc2" -> [alg |-> alg, bs |-> 8, k |-> R2!Rc2Ctx(key, par)]
+                        [] alg = "blowfish" -> [alg |-> alg, bs |-> 8, k |-> BF!BfCtx(key)]
+                        [] alg = "cast" -> [alg |-> alg, bs |-> 8, k |-> CA!CastCtx(key)]
 Enc(c, b) == CASE c.alg = "aes" -> A!E(c.k, b) [] c.alg = "des" -> DS!DesE(c.k, b) [] c.alg = "des3" -> DS!Des3E(c.k, b) [] c.alg = "arc2" -> R2!Rc2E(c.k, b)
+             [] c.alg = "blowfish" -> BF!BfE(c.k, b) [] c.alg = "cast" -> CA!CastE(c.k, b)
 \* 6.1: K1 = L << 1 (xor Rb if MSB(L) = 1), K2 = K1 << 1 (likewise)
 Dbl(s) == LET n == Len(s)
               sh == [i \in 1..n |-> ((s[i] * 2) % 256) + (IF i < n THEN s[i + 1] \div 128 ELSE 0)]
